@@ -10,13 +10,18 @@
 package c38
 
 import (
+	"bytes"
 	"context"
+	"errors"
 	"fmt"
+	"io"
 	"net"
+	"net/http"
 	"net/http/httptest"
 	"os"
 	"sort"
 	"strings"
+	"sync"
 	"testing"
 	"time"
 
@@ -78,12 +83,12 @@ func cfg() prog.GenConfig {
 	return prog.GenConfig{
 		Buckets: 2, Keys: 4, MinOps: 4, MaxOps: 22,
 		Weights: map[string]int{
-			prog.OpCreateBucket: 2, prog.OpDeleteBucket: 1, prog.OpSetVersioning: 2, prog.OpPut: 10, prog.OpCopy: 4,
+			prog.OpCreateBucket: 2, prog.OpDeleteBucket: 1, prog.OpSetVersioning: 2, prog.OpPut: 14, prog.OpCopy: 5,
 			prog.OpMpuSeq: 4, prog.OpMpuCreate: 1, prog.OpMpuPart: 2, prog.OpMpuPartCopy: 1, prog.OpMpuComplete: 1, prog.OpMpuAbort: 1,
-			prog.OpDelete: 4, prog.OpPutTags: 2, prog.OpDeleteTags: 1,
+			prog.OpDelete: 4, prog.OpDeleteObjects: 2, prog.OpTransition: 2, prog.OpPutTags: 2, prog.OpDeleteTags: 1,
 			prog.OpHead: 3, prog.OpGet: 4, prog.OpList: 1,
 		},
-		Classes: []string{"STANDARD", "GLACIER", "STANDARD_IA"}, Meta: true, Tags: true, Versions: false, NoEmpty: true,
+		Classes: []string{"STANDARD", "GLACIER", "STANDARD_IA"}, Meta: true, Tags: true, Versions: true, Conditions: true, SrcConds: true,
 		Boundaries: []int{1024, 65536}, MaxBody: 70000, Manifests: true,
 	}
 }
@@ -103,7 +108,6 @@ func gen38(t *rapid.T, env *ev.Env) Case {
 			ct := "application/octet-stream"
 			op.ContentType = &ct
 		}
-		// PutObject tags trip KF-C38-4 (end-case): 2 in 3 puts carry none so the search continues behind it
 		// ranged CopyObject is answered with ErrNotImplemented by S3ClientStorage (documented-unsupported)
 		if op.Kind == prog.OpCopy {
 			op.Range = nil
@@ -112,8 +116,34 @@ func gen38(t *rapid.T, env *ev.Env) Case {
 				op.K = (op.K + 1) % 4
 			}
 		}
-		if op.Kind == prog.OpPut && op.Tags != nil && rapid.IntRange(0, 2).Draw(t, "keepPutTags") != 0 {
+		// a transition of a named version is answered with ErrNotImplemented (documented-unsupported)
+		if op.Kind == prog.OpTransition {
+			op.Ver = ""
+		}
+		// DeleteObjects names each key at most once: the response lists deleted and failed
+		// entries separately, so results of a key named twice cannot be paired with their requests
+		if op.Kind == prog.OpDeleteObjects {
+			seen := map[int]bool{}
+			var es []prog.DelSpec
+			for _, e := range op.Entries {
+				if !seen[e.K%len(names.Keys)] {
+					seen[e.K%len(names.Keys)] = true
+					es = append(es, e)
+				}
+			}
+			op.Entries = es
+		}
+		// PutObject tags trip KF-C38-4 (end-case): 7 in 8 tagged puts lose their tags in the generator
+		if op.Kind == prog.OpPut && op.Tags != nil && rapid.IntRange(0, 7).Draw(t, "keepPutTags") != 0 {
 			op.Tags = nil
+		}
+		// version references and conditions mostly miss in a random program: half of them are dropped so
+		// that enough operations succeed (the other half keeps the failing paths populated)
+		if (op.Ver != "" || op.SrcVer != "") && rapid.Bool().Draw(t, "dropVer") {
+			op.Ver, op.SrcVer = "", ""
+		}
+		if (op.IfMatch != "" || op.IfNoneMatchStar || op.SrcCond != "") && rapid.Bool().Draw(t, "dropCond") {
+			op.IfMatch, op.IfNoneMatchStar, op.SrcCond = "", false, ""
 		}
 		c.Steps = append(c.Steps, Step{Op: &op})
 		if i < 2 || rapid.IntRange(0, 3).Draw(t, "query?") != 0 {
@@ -125,9 +155,7 @@ func gen38(t *rapid.T, env *ev.Env) Case {
 		switch q.Kind {
 		case "listObjects", "listVersions":
 			q.Prefix = rapid.SampledFrom([]string{"", "", "a", "a/", "é", "A"}).Draw(t, "prefix")
-			if q.Kind == "listObjects" {
-				q.Delimiter = rapid.SampledFrom([]string{"", "", "/"}).Draw(t, "delim")
-			}
+			q.Delimiter = rapid.SampledFrom([]string{"", "", "/"}).Draw(t, "delim")
 			q.MaxKeys = rapid.SampledFrom([]int{1, 1, 2, 3, 1000}).Draw(t, "maxKeys")
 		case "getTags":
 			q.Ver = rapid.SampledFrom([]string{"", "", "null", "ref:0", "ref:1"}).Draw(t, "qver")
@@ -187,28 +215,141 @@ func sp(p *string) string {
 
 // doQuery runs a query on one storage and renders the observable result
 // canonically; a panic inside the storage is an observable result too.
-func doQuery(ctx context.Context, st storage.Storage, s *run.Session, side int, q Query) (out string) {
+func doQuery(ctx context.Context, st storage.Storage, s *run.Session, side int, q Query) (out string, pages [][]string) {
 	defer func() {
 		if r := recover(); r != nil {
-			out = "ERR Panic"
+			out, pages = "ERR Panic", nil
 		}
 	}()
-	return doQuery1(ctx, st, s, side, q)
+	out = doQuery1(ctx, st, s, side, q, &pages)
+	return
 }
 
-// safeSide turns a panic inside a storage call into the error kind "Panic".
-type safeSide struct{ inner prog.Side }
+// flatten is the walk of a listing without its page structure: every entry once,
+// in order of first appearance.
+func flatten(pages [][]string) string {
+	seen := map[string]bool{}
+	var out []string
+	for _, p := range pages {
+		for _, e := range p {
+			if !seen[e] {
+				seen[e] = true
+				out = append(out, e)
+			}
+		}
+	}
+	return strings.Join(out, " ")
+}
 
-func (s safeSide) Do(c prog.Concrete) (r prog.Result) {
+// stripPrefixes renders the pages without their common-prefix entries.
+func stripPrefixes(pages [][]string) string {
+	var sb strings.Builder
+	for _, p := range pages {
+		for _, e := range p {
+			if !strings.HasPrefix(e, "prefix(") {
+				sb.WriteString(e + " ")
+			}
+		}
+	}
+	return sb.String()
+}
+
+// prefixesLost: the common prefixes of walk a are a proper subset of those of walk b.
+func prefixesLost(a, b [][]string) bool {
+	set := func(pages [][]string) map[string]bool {
+		m := map[string]bool{}
+		for _, p := range pages {
+			for _, e := range p {
+				if strings.HasPrefix(e, "prefix(") {
+					m[e] = true
+				}
+			}
+		}
+		return m
+	}
+	sa, sb := set(a), set(b)
+	for e := range sa {
+		if !sb[e] {
+			return false
+		}
+	}
+	return len(sa) < len(sb)
+}
+
+func maxPage(pages [][]string) int {
+	n := 0
+	for _, p := range pages {
+		if len(p) > n {
+			n = len(p)
+		}
+	}
+	return n
+}
+
+// clientSide is side 0: S3ClientStorage. A panic inside a storage call becomes
+// the error kind "Panic". The session learns the version ids a side created from
+// the results of its writes; where S3ClientStorage returns none (KF-C38-5) the id
+// is read from storage A directly (it sits behind the server, so that is the id
+// the client should have returned) - only for the session's bookkeeping, so that
+// later ops can name the version on both sides. The id actually returned is kept
+// in rawVersion and is what the per-call comparison sees.
+type clientSide struct {
+	inner      prog.Side
+	a          storage.Storage
+	rawVersion string
+}
+
+func (s *clientSide) Do(c prog.Concrete) (r prog.Result) {
 	defer func() {
 		if p := recover(); p != nil {
 			r = prog.Result{Err: "Panic", ErrText: fmt.Sprint(p), Size: -1}
+			s.rawVersion = ""
 		}
 	}()
-	return s.inner.Do(c)
+	r = s.inner.Do(c)
+	s.rawVersion = r.Version
+	if r.Err == "" && c.Kind == prog.OpDeleteObjects {
+		// the wire format carries the deleted entries and the failed entries as two
+		// separate lists: bring them back into request order (keys are distinct per request)
+		var ordered []prog.DelResult
+		used := make([]bool, len(r.Entries))
+		for _, want := range c.Entries {
+			for i, e := range r.Entries {
+				if !used[i] && e.Key == want.Key {
+					used[i] = true
+					ordered = append(ordered, e)
+					break
+				}
+			}
+		}
+		for i, e := range r.Entries {
+			if !used[i] {
+				ordered = append(ordered, e)
+			}
+		}
+		r.Entries = ordered
+	}
+	if r.Err != "" || r.Version != "" {
+		return r
+	}
+	switch c.Kind {
+	case prog.OpPut, prog.OpCopy, prog.OpMpuComplete:
+		if o, err := s.a.HeadObject(context.Background(), storage.MustNewBucketName(c.Bucket), storage.MustNewObjectKey(c.Key), nil); err == nil && o.VersionID != nil {
+			r.Version = *o.VersionID
+		}
+	case prog.OpDelete:
+		if c.VersionID == nil {
+			_, err := s.a.HeadObject(context.Background(), storage.MustNewBucketName(c.Bucket), storage.MustNewObjectKey(c.Key), nil)
+			var cdm *storage.CurrentDeleteMarkerError
+			if errors.As(err, &cdm) {
+				r.Version = cdm.VersionID
+			}
+		}
+	}
+	return r
 }
 
-func doQuery1(ctx context.Context, st storage.Storage, s *run.Session, side int, q Query) string {
+func doQuery1(ctx context.Context, st storage.Storage, s *run.Session, side int, q Query, pages *[][]string) string {
 	bucket := names.Buckets[q.B%len(names.Buckets)]
 	key := names.Keys[q.K%len(names.Keys)]
 	bn := storage.MustNewBucketName(bucket)
@@ -267,18 +408,23 @@ func doQuery1(ctx context.Context, st storage.Storage, s *run.Session, side int,
 			}
 			fmt.Fprintf(&sb, "page[trunc=%v", res.IsTruncated)
 			last := ""
+			var entries []string
 			for _, o := range res.Objects {
-				fmt.Fprintf(&sb, " obj(%q size=%d etag=%s class=%s)", o.Key.String(), o.Size, o.ETag, storage.EffectiveStorageClass(o.StorageClass))
+				entries = append(entries, fmt.Sprintf("obj(%q size=%d etag=%s class=%s)", o.Key.String(), o.Size, o.ETag, storage.EffectiveStorageClass(o.StorageClass)))
 				if o.Key.String() > last {
 					last = o.Key.String()
 				}
 			}
 			for _, p := range res.CommonPrefixes {
-				fmt.Fprintf(&sb, " prefix(%q)", p)
+				entries = append(entries, fmt.Sprintf("prefix(%q)", p))
 				if p > last {
 					last = p
 				}
 			}
+			for _, e := range entries {
+				sb.WriteString(" " + e)
+			}
+			*pages = append(*pages, entries)
 			sb.WriteString("] ")
 			if !res.IsTruncated || last == "" {
 				break
@@ -313,7 +459,9 @@ func doQuery1(ctx context.Context, st storage.Storage, s *run.Session, side int,
 			sb.WriteString(" " + strings.Join(rows, " "))
 			for _, p := range res.CommonPrefixes {
 				fmt.Fprintf(&sb, " prefix(%q)", p)
+				rows = append(rows, fmt.Sprintf("prefix(%q)", p))
 			}
+			*pages = append(*pages, rows)
 			sb.WriteString("] ")
 			if !res.IsTruncated {
 				break
@@ -360,6 +508,7 @@ func doQuery1(ctx context.Context, st storage.Storage, s *run.Session, side int,
 type diff struct {
 	Code string // mechanism code: "<op>/<field>[/<detail>]"
 	Text string
+	Idx  int // deleteObjects: index of the entry, otherwise -1
 }
 
 func pstr(p *string) string {
@@ -372,7 +521,7 @@ func pstr(p *string) string {
 func compareResults(kind string, cl, dr prog.Result) []diff {
 	var d []diff
 	add := func(code, format string, a ...any) {
-		d = append(d, diff{Code: kind + "/" + code, Text: fmt.Sprintf(format, a...)})
+		d = append(d, diff{Code: kind + "/" + code, Text: fmt.Sprintf(format, a...), Idx: -1})
 	}
 	if cl.Err != dr.Err {
 		add("err/"+cl.Err+"<-"+dr.Err, "client side error kind %q (%s), direct side %q (%s)", cl.Err, cl.ErrText, dr.Err, dr.ErrText)
@@ -457,10 +606,56 @@ func compareResults(kind string, cl, dr prog.Result) []diff {
 			a, b := cl.Entries[i], dr.Entries[i]
 			if a.Key != b.Key || a.Deleted != b.Deleted || a.ErrCode != b.ErrCode || a.DeleteMarker != b.DeleteMarker || prog.NormVersion(a.Version) != prog.NormVersion(b.Version) {
 				add("entries", "entry %d %+v vs %+v", i, a, b)
+				d[len(d)-1].Idx = i
 			}
 		}
 	}
 	return d
+}
+
+// refine replaces the generic code of a discrepancy by the code of a specific
+// mechanism when the requests S3ClientStorage sent (wire) show that mechanism:
+// a condition or version id the caller supplied that never went out.
+func refine(c prog.Concrete, cl, dr prog.Result, ds []diff, wire []wireReq) []diff {
+	sent := func(method, queryHas string) *wireReq {
+		for i := range wire {
+			if wire[i].Method == method && strings.Contains(wire[i].Query, queryHas) {
+				return &wire[i]
+			}
+		}
+		return nil
+	}
+	for i := range ds {
+		d := &ds[i]
+		switch {
+		case d.Code == "mpuComplete/err/<-PreconditionFailed" && (c.IfMatchETag != nil || c.IfNoneMatchStar):
+			// CompleteMultipartUpload went out without the If-Match / If-None-Match the caller supplied
+			if r := sent(http.MethodPost, "uploadId="); r != nil && r.Header.Get("If-Match") == "" && r.Header.Get("If-None-Match") == "" {
+				d.Code = "mpuComplete/conditionNotSent"
+			}
+		case d.Code == "deleteObjects/entries" && d.Idx >= 0 && d.Idx < len(c.Entries) && d.Idx < len(cl.Entries) && d.Idx < len(dr.Entries):
+			e, a, b := c.Entries[d.Idx], cl.Entries[d.Idx], dr.Entries[d.Idx]
+			if e.IfMatchETag == nil || !a.Deleted || b.Deleted || b.ErrCode != "PreconditionFailed" {
+				break
+			}
+			r := sent(http.MethodPost, "delete")
+			switch {
+			case r != nil && !strings.Contains(r.Body, "<ETag>"):
+				// the entry's ETag condition never went out
+				d.Code = "deleteObjects/etagNotSent"
+			case r != nil && e.VersionID != nil && a.ErrCode == "":
+				// the condition went out and the entry names a version: the endpoint answered "deleted"
+				d.Code = "deleteObjects/failedVersionEntryReportedDeleted"
+			}
+		case c.Kind == prog.OpGet && c.VersionID != nil && (strings.HasPrefix(d.Code, "get/obj.") && d.Code != "get/obj.body" ||
+			d.Code == "get/err/CurrentDeleteMarker<-" || d.Code == "get/err/NoSuchBucket<-" || d.Code == "get/err/CurrentDeleteMarker<-VersionIsDeleteMarker"):
+			// GetObject of a named version asked for the metadata of the current version
+			if r := sent(http.MethodHead, ""); r != nil && !strings.Contains(r.Query, "versionId=") {
+				d.Code = "get/headWithoutVersion"
+			}
+		}
+	}
+	return ds
 }
 
 // ---- the twin ------------------------------------------------------------------------
@@ -469,6 +664,48 @@ type twin struct {
 	a, b   *stacks.Instance
 	srv    *httptest.Server
 	client storage.Storage
+	wire   *wireLog
+}
+
+// wireReq is one request S3ClientStorage sent to the endpoint (what was asked of
+// the server, not what it answered): used only to attribute a discrepancy to
+// "the client did not send X" as opposed to "the server answered differently".
+type wireReq struct {
+	Method, Path, Query string
+	Header              http.Header
+	Body                string // POST bodies only (DeleteObjects, CompleteMultipartUpload)
+}
+
+type wireLog struct {
+	mu   sync.Mutex
+	reqs []wireReq
+}
+
+func (w *wireLog) reset() {
+	w.mu.Lock()
+	w.reqs = nil
+	w.mu.Unlock()
+}
+
+func (w *wireLog) all() []wireReq {
+	w.mu.Lock()
+	defer w.mu.Unlock()
+	return append([]wireReq(nil), w.reqs...)
+}
+
+func (w *wireLog) wrap(h http.Handler) http.Handler {
+	return http.HandlerFunc(func(rw http.ResponseWriter, r *http.Request) {
+		q := wireReq{Method: r.Method, Path: r.URL.Path, Query: r.URL.RawQuery, Header: r.Header.Clone()}
+		if r.Method == http.MethodPost && r.ContentLength >= 0 && r.ContentLength < 1<<20 && r.Header.Get("Content-Encoding") == "" {
+			b, _ := io.ReadAll(r.Body)
+			q.Body = string(b)
+			r.Body = io.NopCloser(bytes.NewReader(b))
+		}
+		w.mu.Lock()
+		w.reqs = append(w.reqs, q)
+		w.mu.Unlock()
+		h.ServeHTTP(rw, r)
+	})
 }
 
 func (t *twin) close() {
@@ -499,7 +736,8 @@ func openTwin(dir, stack string) (*twin, error) {
 	t.srv = httptest.NewUnstartedServer(nil)
 	// the host router strips the port from the request's Host before comparing
 	host, _, _ := net.SplitHostPort(t.srv.Listener.Addr().String())
-	t.srv.Config.Handler = server.SetupServer([]settings.Credentials{{AccessKeyId: accessKey, SecretAccessKey: secretKey}}, region, host, "website."+host, allowAll{}, t.a.Storage)
+	t.wire = &wireLog{}
+	t.srv.Config.Handler = t.wire.wrap(server.SetupServer([]settings.Credentials{{AccessKeyId: accessKey, SecretAccessKey: secretKey}}, region, host, "website."+host, allowAll{}, t.a.Storage))
 	t.srv.Start()
 	cl := s3.New(s3.Options{
 		Region:       region,
@@ -566,6 +804,22 @@ var knownTable = []knownEntry{
 	{known{"c38.versionIdNotReturned", "KF-C38-5", false}, func(c string) bool { return c == "put/version" || c == "copy/version" || c == "delete/version" }},
 	// KF-C38-6: CopyObject does not forward ReplaceTags / Tags (detected right after the copy; states diverged)
 	{known{"c38.copyTagsNotReplaced", "KF-C38-6", true}, func(c string) bool { return c == "copy/tagsNotReplaced" }},
+	// KF-C38-7: CompleteMultipartUpload goes out without the caller's If-Match / If-None-Match (the upload completes; states diverged)
+	{known{"c38.completeConditionNotSent", "KF-C38-7", true}, func(c string) bool { return c == "mpuComplete/conditionNotSent" }},
+	// KF-C38-8: DeleteObjects goes out without the entries' ETag conditions (the object is deleted; states diverged)
+	{known{"c38.deleteObjectsEtagNotSent", "KF-C38-8", true}, func(c string) bool { return c == "deleteObjects/etagNotSent" }},
+	// KF-C38-9: GetObject of a named version takes its metadata from a HeadObject of the current version
+	{known{"c38.getHeadWithoutVersion", "KF-C38-9", false}, func(c string) bool { return c == "get/headWithoutVersion" }},
+	// KF-C38-10: ListObjectVersions drops the CommonPrefixes of the response
+	{known{"c38.listVersionsPrefixesDropped", "KF-C38-10", false}, func(c string) bool { return c == "q.listVersions/commonPrefixesDropped" }},
+	// KF-C38-11: TransitionObjectStorageClass (a self copy) creates a new version in a versioning-enabled bucket (states diverged)
+	{known{"c38.transitionNewVersion", "KF-C38-11", true}, func(c string) bool { return c == "transition/newVersion" }},
+	// KF-C38-12: TransitionObjectStorageClass (a self copy) loses the website redirect location (states diverged)
+	{known{"c38.transitionRedirectLost", "KF-C38-12", true}, func(c string) bool { return c == "transition/redirectLost" }},
+	// KF-C38-14: a delimiter listing through the endpoint loses common prefixes at a page break (server side)
+	{known{"c38.commonPrefixLostAtPageBreak", "KF-C38-14", false}, func(c string) bool { return c == "q.listObjects/commonPrefixLostAtPageBreak" }},
+	// KF-C38-13: the endpoint reports a DeleteObjects entry that names a version id and failed its ETag condition as deleted
+	{known{"c38.failedVersionEntryReportedDeleted", "KF-C38-13", false}, func(c string) bool { return c == "deleteObjects/failedVersionEntryReportedDeleted" }},
 }
 
 // survey (development aid, VERIF_C38_SURVEY=1): tolerate every discrepancy and
@@ -593,7 +847,8 @@ func runCase(env *ev.Env, c Case) (o ev.Outcome) {
 	}
 	defer tw.close()
 	o.Class("stack:" + c.Stack)
-	s := run.NewSession(names, safeSide{prog.NewStorageSide(tw.client)}, prog.NewStorageSide(tw.b.Storage))
+	side0 := &clientSide{inner: prog.NewStorageSide(tw.client), a: tw.a.Storage}
+	s := run.NewSession(names, side0, prog.NewStorageSide(tw.b.Storage))
 
 	mpu, versionedDelete, paginated := false, false, false
 	handle := func(step int, what string, ds []diff) (stop bool) {
@@ -626,17 +881,33 @@ func runCase(env *ev.Env, c Case) (o ev.Outcome) {
 	for i, st := range c.Steps {
 		if st.Q != nil {
 			q := *st.Q
-			ca := doQuery(ctx, tw.client, s, 0, q)
-			cb := doQuery(ctx, tw.b.Storage, s, 1, q)
+			ca, pa := doQuery(ctx, tw.client, s, 0, q)
+			cb, pb := doQuery(ctx, tw.b.Storage, s, 1, q)
 			o.Sub++
 			o.Count("query:"+q.Kind, 1)
 			if strings.Count(cb, "page[") >= 2 {
 				paginated = true
 			}
+			if ca != cb && !strings.Contains(ca, "ERR ") && !strings.Contains(cb, "ERR ") && (q.Kind == "listObjects" || q.Kind == "listVersions") &&
+				q.MaxKeys > 0 && maxPage(pb) > q.MaxKeys && maxPage(pa) <= q.MaxKeys && flatten(pa) == flatten(pb) {
+				// the storage itself answered a page with more than MaxKeys entries (MaxKeys objects plus
+				// common prefixes): the endpoint cuts the page at MaxKeys and serves the rest on the next
+				// page. Same entries in the same order; where the page breaks fall is not the client's translation.
+				o.Count("note:"+q.Kind+"-direct-page-exceeds-maxKeys", 1)
+				ca = cb
+			}
 			if ca != cb {
 				code := "q." + q.Kind + "/result"
 				if strings.Contains(ca, "ERR ") || strings.Contains(cb, "ERR ") {
 					code = "q." + q.Kind + "/err/" + errOf(ca) + "<-" + errOf(cb)
+				} else if q.Kind == "listObjects" && q.Delimiter != "" && maxPage(pb) > q.MaxKeys && stripPrefixes(pa) == stripPrefixes(pb) && prefixesLost(pa, pb) {
+					// same objects in the same order, but common prefixes of the direct walk never arrive:
+					// the storage answered a page with MaxKeys objects plus common prefixes, the endpoint
+					// returned the objects, moved the marker past the prefixes and dropped them
+					code = "q.listObjects/commonPrefixLostAtPageBreak"
+				} else if q.Kind == "listVersions" && q.Delimiter != "" && !strings.Contains(ca, " prefix(") && strings.Contains(cb, " prefix(") && stripPrefixes(pa) == stripPrefixes(pb) {
+					// same versions, but the client side has no common prefix at all
+					code = "q.listVersions/commonPrefixesDropped"
 				}
 				if handle(i, "query "+q.Kind, []diff{{Code: code, Text: fmt.Sprintf("client side:\n   %s\n direct side:\n   %s", ca, cb)}}) {
 					return
@@ -648,9 +919,11 @@ func runCase(env *ev.Env, c Case) (o ev.Outcome) {
 		if op.Kind == prog.OpAppend || op.Kind == prog.OpGC || op.Kind == prog.OpReopen || op.Kind == prog.OpFlush {
 			continue // AppendObject is documented-unsupported by S3ClientStorage
 		}
+		tw.wire.reset()
 		sr := s.Step(op)
 		o.Sub++
 		cl, dr := sr.Got[0], sr.Got[1]
+		cl.Version = side0.rawVersion // what S3ClientStorage itself returned
 		if dr.Err == "" {
 			o.Count("ok:"+op.Kind, 1)
 			switch {
@@ -662,7 +935,7 @@ func runCase(env *ev.Env, c Case) (o ev.Outcome) {
 		} else {
 			o.Count("fail:"+op.Kind+":"+dr.Err, 1)
 		}
-		ds := compareResults(op.Kind, cl, dr)
+		ds := refine(sr.Concrete, cl, dr, compareResults(op.Kind, cl, dr), tw.wire.all())
 		if op.Kind == prog.OpPut && len(op.Tags) > 0 && cl.Err == "" && dr.Err == "" {
 			// look at storage A directly: did the tags of this put arrive?
 			ta, ea := tw.a.Storage.GetObjectTagging(ctx, storage.MustNewBucketName(sr.Concrete.Bucket), storage.MustNewObjectKey(sr.Concrete.Key), nil)
@@ -676,6 +949,18 @@ func runCase(env *ev.Env, c Case) (o ev.Outcome) {
 			tb, eb := tw.b.Storage.GetObjectTagging(ctx, bn, k, nil)
 			if ea == nil && eb == nil && prog.TagsString(ta) != prog.TagsString(tb) {
 				ds = append(ds, diff{Code: "copy/tagsNotReplaced", Text: fmt.Sprintf("CopyObject with ReplaceTags %s through S3ClientStorage left tags %s (direct: %s)", prog.TagsString(op.Tags), prog.TagsString(ta), prog.TagsString(tb))})
+			}
+		}
+		if op.Kind == prog.OpTransition && cl.Err == "" && dr.Err == "" {
+			// S3ClientStorage transitions by an in-place self copy: look at both storages directly
+			bn, k := storage.MustNewBucketName(sr.Concrete.Bucket), storage.MustNewObjectKey(sr.Concrete.Key)
+			if na, nb := versionCount(ctx, tw.a.Storage, bn, k), versionCount(ctx, tw.b.Storage, bn, k); na == nb+1 {
+				ds = append(ds, diff{Code: "transition/newVersion", Idx: -1, Text: fmt.Sprintf("TransitionObjectStorageClass through S3ClientStorage left %d versions of the key (direct: %d)", na, nb)})
+			}
+			ha, ea := tw.a.Storage.HeadObject(ctx, bn, k, nil)
+			hb, eb := tw.b.Storage.HeadObject(ctx, bn, k, nil)
+			if ea == nil && eb == nil && ha.Metadata.WebsiteRedirectLocation == nil && hb.Metadata.WebsiteRedirectLocation != nil {
+				ds = append(ds, diff{Code: "transition/redirectLost", Idx: -1, Text: fmt.Sprintf("TransitionObjectStorageClass through S3ClientStorage dropped the website redirect location %q", *hb.Metadata.WebsiteRedirectLocation)})
 			}
 		}
 		if handle(i, fmt.Sprintf("%s %s/%s", op.Kind, sr.Concrete.Bucket, sr.Concrete.Key), ds) {
@@ -715,6 +1000,22 @@ func runCase(env *ev.Env, c Case) (o ev.Outcome) {
 		o.Class("has:paginated-listing")
 	}
 	return
+}
+
+// versionCount counts the versions and delete markers of one key.
+func versionCount(ctx context.Context, st storage.Storage, bn storage.BucketName, k storage.ObjectKey) int {
+	pfx := k.String()
+	res, err := st.ListObjectVersions(ctx, bn, storage.ListObjectVersionsOptions{Prefix: &pfx, MaxKeys: 1000})
+	if err != nil {
+		return -1
+	}
+	n := 0
+	for _, v := range res.Versions {
+		if v.Key.String() == pfx {
+			n++
+		}
+	}
+	return n
 }
 
 func errOf(s string) string {
